@@ -27,6 +27,19 @@ pub fn run(ctx: &mut Ctx) {
         if levels != levels2 {
             ctx.machinery_failure(format!("BFS closure is not deterministic: {levels:?} vs {levels2:?}"));
         }
+        // engine cross-check under stateright (same op table, same invariant): unique states within
+        // depth d (initial states are depth 1) must equal seeds + new states of levels 0..d-2
+        let mut cumulative = levels[0].frontier;
+        let mut report = Vec::new();
+        for d in 1..=3usize {
+            if d >= 2 { cumulative += levels[d - 2].new_states; }
+            let (n, clean) = crate::xcheck::unique_states(&sd, &ops, d);
+            report.push(json!({"stateright_depth": d, "stateright_unique_states": n, "explorer_cumulative_states": cumulative, "no_discovery": clean}));
+            if n as u64 != cumulative || !clean {
+                ctx.machinery_failure(format!("engine cross-check: stateright visits {n} unique states within depth {d}, the explorer {cumulative} (no discovery: {clean})"));
+            }
+        }
+        ctx.extra("stateright_cross_check", json!(report));
     }
 
     // flat: all dates x 24 trunc/round + last day on the three types — results in range
